@@ -58,7 +58,9 @@ namespace cs
                 if (r.chance(1, 10))
                     target = r.range(0, 16);
                 bool grow = live < target ? r.chance(3, 4) : r.chance(1, 4);
-                if (r.chance(1, 25))
+                if (r.chance(1, 30))
+                    p.add("mvw", {(long long)r.below(7), (long long)r.below(300), (long long)r.below(100)});
+                else if (r.chance(1, 25))
                     p.add("mx", {});
                 else if (grow)
                 {
